@@ -749,7 +749,10 @@ theorem parseSelect_over {len f : Nat} {ts rest : List Token} {s : Select} (hT :
     (h : parseSelect f ts = .ok (s, rest)) :
     ∃ run tail, ts = run ++ tail ++ rest ∧ Over s.select (endSelect s) run ∧
       (tail = [] ∨ ∃ tc, tail = [tc] ∧ s.trailing = true ∧ s.from_ = none ∧ s.where_ = none ∧ s.groupBy = none ∧
-        s.having = none) := by
+        s.having = none) ∧
+      ∃ base pf pw pg ph, run ++ tail = base ++ pf ++ pw ++ pg ++ ph ∧ base ≠ [] ∧ OptOver s.from_ (·.from_) endFrom pf ∧
+        OptOver s.where_ (·.where_) endWhere pw ∧ OptOver s.groupBy (·.group) endGroupBy pg ∧
+        OptOver s.having (·.having) endHaving ph := by
   obtain ⟨_, _, htrail⟩ := parseSelect_sound h
   unfold parseSelect at h
   split at h
@@ -800,7 +803,8 @@ theorem parseSelect_over {len f : Nat} {ts rest : List Token} {s : Select} (hT :
       · obtain ⟨rfl, rfl, rfl, rfl⟩ := hcl
         simp only [OptOver] at hof how hog hoh
         subst hof how hog hoh
-        refine ⟨(tsel :: pa) ++ (pi ++ pl), ptr, by rw [hall]; simp, ⟨hB.1, ?_, ?_⟩, ?_⟩
+        refine ⟨(tsel :: pa) ++ (pi ++ pl), ptr, by rw [hall]; simp, ⟨hB.1, ?_, ?_⟩, ?_,
+          (tsel :: pa) ++ (pi ++ pl) ++ ptr, [], [], [], [], by simp, by simp, rfl, rfl, rfl, rfl⟩
         · have := hfirst []; simpa using this.symm
         · simp only [endSelect]; exact hB.2.symm
         · cases tr with
@@ -832,7 +836,8 @@ theorem parseSelect_over {len f : Nat} {ts rest : List Token} {s : Select} (hT :
         have h2 := lastEnd_opt h1.1 h1.2 hog
         have h3 := lastEnd_opt h2.1 h2.2 hoh
         refine ⟨(tsel :: pa) ++ (pi ++ pl) ++ ptr ++ pf ++ pw ++ pg ++ ph, [], by rw [hall]; simp,
-          ⟨h3.1, ?_, ?_⟩, Or.inl rfl⟩
+          ⟨h3.1, ?_, ?_⟩, Or.inl rfl,
+          (tsel :: pa) ++ (pi ++ pl) ++ ptr, pf, pw, pg, ph, by simp, by simp, hof, how, hog, hoh⟩
         · have := hfirst (ptr ++ pf ++ pw ++ pg ++ ph)
           simp only [List.append_assoc] at this ⊢
           exact this.symm
@@ -846,7 +851,8 @@ theorem parseSelect_over {len f : Nat} {ts rest : List Token} {s : Select} (hT :
 theorem parseQueryStatement_over {len f : Nat} {ts rest : List Token} {q : QueryStatement} (hT : TokensOK len ts)
     (h : parseQueryStatement f ts = .ok (q, rest)) :
     ∃ run tail, ts = run ++ tail ++ rest ∧ Over (posQ q) (endQ q) run ∧ (tail = [] ∨ ∃ tc, tail = [tc]) ∧
-      ∃ srun stail, Over (selectOf q.query).select (endSelect (selectOf q.query)) srun ∧ (∃ b, run ++ tail = srun ++ stail ++ b) := by
+      ∃ srun stail, Over (selectOf q.query).select (endSelect (selectOf q.query)) srun ∧ (∃ b, run ++ tail = srun ++ stail ++ b) ∧
+        (endQ q = endSelect (selectOf q.query) ∨ ∃ b', run = srun ++ b') := by
   unfold parseQueryStatement at h
   split at h
   · cases h
@@ -863,7 +869,7 @@ theorem parseQueryStatement_over {len f : Nat} {ts rest : List Token} {q : Query
         · cases hs
         · exact hs
         · cases hs
-      obtain ⟨srun, stail, e0, hos, htail⟩ := parseSelect_over hT hs'
+      obtain ⟨srun, stail, e0, hos, htail, _⟩ := parseSelect_over hT hs'
       try simp only at hsuf
       split at hsuf
       · cases hsuf
@@ -892,7 +898,7 @@ theorem parseQueryStatement_over {len f : Nat} {ts rest : List Token} {q : Query
               cases h3
               simp only [OptOver] at hoo hol
               subst hoo hol
-              refine ⟨srun, stail, by rw [e0, e1, e2]; simp, hos, ?_, srun, stail, hos, [], by simp⟩
+              refine ⟨srun, stail, by rw [e0, e1, e2]; simp, hos, ?_, srun, stail, hos, ⟨[], by simp⟩, Or.inl rfl⟩
               rcases htail with h | ⟨tc, h, _⟩
               · exact Or.inl h
               · exact Or.inr ⟨tc, h⟩
@@ -900,14 +906,14 @@ theorem parseQueryStatement_over {len f : Nat} {ts rest : List Token} {q : Query
               simp only at h3
               cases h3
               refine ⟨srun ++ stail ++ po ++ pl, [], by rw [e0, e1, e2]; simp, ⟨c2.1, ?_, ?_⟩, Or.inl rfl,
-                srun, stail, hos, po ++ pl, by simp⟩
+                srun, stail, hos, ⟨po ++ pl, by simp⟩, Or.inr ⟨stail ++ po ++ pl, by simp⟩⟩
               · have := hfp (stail ++ po ++ pl); simp only [List.append_assoc] at this ⊢; exact this.symm
               · rw [c2.2]; rfl
           | some ov =>
             simp only at h3
             cases h3
             refine ⟨srun ++ stail ++ po ++ pl, [], by rw [e0, e1, e2]; simp, ⟨c2.1, ?_, ?_⟩, Or.inl rfl,
-              srun, stail, hos, po ++ pl, by simp⟩
+              srun, stail, hos, ⟨po ++ pl, by simp⟩, Or.inr ⟨stail ++ po ++ pl, by simp⟩⟩
             · have := hfp (stail ++ po ++ pl); simp only [List.append_assoc] at this ⊢; exact this.symm
             · rw [c2.2]; cases l <;> rfl
 
